@@ -40,7 +40,7 @@ let client_s (st : state) (i : int) (c : client) : string =
     (b2s c.cNewFBPending) (iz c.cReqChange) (iz c.cLastErr) (iz c.cSliceY)
     (iz c.cExt.xDefS) (iz c.cExt.xDefU)
     (match c.cExt.xScaled with Some (w, h) -> Printf.sprintf "%dx%d" (iz w) (iz h) | None -> "-")
-    (iz (fmt_bpp c.cBpp)) (iz (fmt_bits c.cBpp)) (iz c.cPW) (iz c.cPH)
+    (iz (fmt_bpp c.cBpp.tTo)) (iz (fmt_bits c.cBpp.tTo)) (iz c.cPW) (iz c.cPH)
     (pic_hash c.cPic) (b2s (inv_client_b st c))
 
 let observe (opname : string) (st : state) (msgs : (nat * wmsg) list) : unit =
